@@ -1,8 +1,142 @@
 (* Proofs of the C17 statements (imported by Props/C17.v). *)
-From GoRes Require Import Pattern.Spec.
+From GoRes Require Import Pattern.Spec Pattern.Lemmas Pattern.Lemmas2 Pattern.Lemmas3.
 From Coq Require Import Lia.
 Open Scope N_scope.
 
-(* TODO lemmas: is_valid_spec_pf matches_tokenwise_pf values_tokenwise_pf replace_tokenwise_pf
-   index_wildcard_spec_pf matches_iff_values_pf replace_roundtrip_pf covers_sound_pf valid_part_spec_pf
-   valid_rid_spec_pf valid_path_spec_pf id_roundtrip_pf matches_v0_refuted_pf *)
+(* ---- the five scanners are the token-wise functions ---- *)
+Lemma is_valid_spec_pf : forall p, is_valid p = tvalid p.
+Proof. intros p. unfold tvalid. rewrite tokens_toks. apply is_valid_toks. Qed.
+
+Lemma matches_tokenwise_pf : forall p s, matches p s = tmatch (tokens p) (tokens s).
+Proof. intros p s. rewrite !tokens_toks. apply matches_toks. Qed.
+
+Lemma values_tokenwise_pf : forall p s, values p s = tvalues (tokens p) (tokens s) [].
+Proof. intros p s. rewrite !tokens_toks. apply values_toks. Qed.
+
+Lemma replace_tokenwise_pf : forall f p, replace f p = join (map (treplace f) (tokens p)).
+Proof. intros f p. rewrite tokens_toks. apply replace_toks. Qed.
+
+Lemma index_wildcard_spec_pf : forall p, index_wildcard p = tindex 0 (tokens p).
+Proof. intros p. rewrite tokens_toks. apply index_toks. Qed.
+
+(* ---- validators ---- *)
+Lemma valid_part_spec_pf : forall t,
+  is_valid_part t = negb (is_nil t) && forallb (fun c => rid_char_ok c && negb (c =? dot)) t.
+Proof.
+  intros t. unfold is_valid_part. f_equal.
+  induction t as [|c t IH]; cbn [forallb]; [reflexivity|].
+  rewrite IH. f_equal. unfold part_char_ok, rid_char_ok.
+  destruct (c <? 33), (126 <? c), (c =? qmark), (c =? star), (c =? gt), (c =? dot); reflexivity.
+Qed.
+
+Lemma valid_rid_spec_pf : forall r,
+  is_valid_rid r = forallb (fun t => negb (is_nil t) && forallb rid_char_ok t) (tokens (before_q r)).
+Proof. intros r. rewrite tokens_toks. apply is_valid_rid_toks. Qed.
+
+Lemma valid_path_spec_pf : forall p,
+  is_valid_path p = is_nil p || (tvalid p && forallb (fun t => match kind t with KLit => true | _ => false end) (tokens p)).
+Proof.
+  intros p. unfold is_valid_path, tvalid. rewrite is_valid_toks, index_toks, tokens_toks.
+  destruct p as [|c p]; [reflexivity|]. cbn [is_nil orb].
+  destruct (toks_valid (toks (c :: p))) eqn:V; cbn [andb]; [|reflexivity].
+  apply tindex_none, V.
+Qed.
+
+(* ---- token-level consequences ---- *)
+
+Lemma no_gt_start_ngs : forall s, no_gt_start s = ngs (toks s).
+Proof. intros s. unfold no_gt_start, ngs. rewrite tokens_toks. reflexivity. Qed.
+
+Lemma matches_iff_values_pf : forall p s, no_gt_start s = true -> matches p s = isSome (values p s).
+Proof.
+  intros p s H. rewrite no_gt_start_ngs in H. rewrite matches_toks, values_toks.
+  apply tmatch_tvalues, H.
+Qed.
+
+Lemma covers_sound_pf : forall p q s,
+  no_gt_start s = true -> matches p q = true -> matches q s = true -> matches p s = true.
+Proof.
+  intros p q s H. rewrite no_gt_start_ngs in H. rewrite !matches_toks. apply tcovers, H.
+Qed.
+
+(* completeness of covering: if p does not match q (both valid) some name of q is not a name of p *)
+Lemma covers_complete_pf : forall p q, is_valid p = true -> is_valid q = true -> matches p q = false ->
+  exists s, no_gt_start s = true /\ matches q s = true /\ matches p s = false.
+Proof.
+  intros p q VP VQ M. destruct q as [|d q0].
+  - exists []. split; [reflexivity|]. split; [reflexivity|exact M].
+  - set (q := d :: q0) in *. set (w := wit (length p)).
+    assert (Wn : is_nil w = false) by reflexivity.
+    assert (Wg : starts_gt w = false) by reflexivity.
+    assert (Wd : nodot w = true) by apply (wit_nodot (S (length p))).
+    assert (VQ' : tailv (toks q) = true).
+    { rewrite tailv_toks. rewrite is_valid_toks in VQ. exact VQ. }
+    assert (FO : fullok (toks p) = true).
+    { destruct p as [|c p0]; [reflexivity|]. apply tailv_fullok. rewrite tailv_toks.
+      rewrite is_valid_toks in VP. exact VP. }
+    assert (FR : fresh w (toks p) = true).
+    { apply (lenle_fresh (length p)); [apply toks_lenle|]. unfold w, wit. apply repeat_length. }
+    set (S := inst w (toks p) (toks q)).
+    assert (TS : toks (join S) = S).
+    { apply toks_join.
+      - unfold S. rewrite (toks_eta q). apply inst_nonnil.
+      - apply inst_nodot; [exact Wd|apply toks_nodot]. }
+    exists (join S). rewrite no_gt_start_ngs, !matches_toks, TS. rewrite matches_toks in M.
+    split; [apply inst_ngs; exact Wg|]. split.
+    + apply inst_q; assumption.
+    + apply inst_p; assumption.
+Qed.
+
+Lemma replace_roundtrip_pf : forall p s m,
+  no_gt_start s = true -> nodupb (tag_names p) = true -> values p s = Some m ->
+  matches (replace_tags m p) s = true /\ (no_anon p = true -> replace_tags m p = s).
+Proof.
+  intros p s m G ND V. rewrite no_gt_start_ngs in G. rewrite values_toks in V.
+  unfold tag_names in ND. rewrite tokens_toks in ND.
+  destruct (troundtrip _ _ _ _ V ND G) as (A & B & C).
+  unfold replace_tags. rewrite replace_toks. split.
+  - rewrite matches_toks, toks_join; [exact A| |apply C; apply toks_nodot].
+    rewrite (toks_eta p). reflexivity.
+  - intros NA. unfold no_anon in NA. rewrite tokens_toks in NA. rewrite (B NA). apply join_toks.
+Qed.
+
+(* ---- id round trip ---- *)
+(* NOTE: the statement without [is_valid p = true] is false: tag = [], p = ">.$", id = "a". *)
+Lemma id_roundtrip_valid_pf : forall tag p id,
+  is_valid p = true ->
+  is_valid_part id = true -> nodupb (tag_names p) = true -> existsb (beq tag) (tag_names p) = true ->
+  rid_to_id tag p (id_to_rid tag p id) = Some id.
+Proof.
+  intros tag p id VP VI ND EX. destruct (valid_part_nodot _ VI) as [NI DI].
+  unfold tag_names in *. rewrite tokens_toks in *. fold (tagsT (toks p)) in *.
+  rewrite is_valid_toks in VP.
+  assert (TV : tailv (toks p) = true).
+  { rewrite tailv_toks. destruct p as [|c p]; [discriminate EX|exact VP]. }
+  unfold rid_to_id, id_to_rid, replace_tag. rewrite replace_toks, values_toks.
+  rewrite toks_join.
+  - destruct (tid tag id (toks p) [] NI TV ND) as (m & Hm & Hl). 
+    match goal with |- match ?X with Some _ => _ | None => _ end = _ =>
+      replace X with (Some m) by (symmetry; exact Hm) end.
+    apply Hl, EX.
+  - rewrite (toks_eta p). reflexivity.
+  - apply treplace_nodot; [|apply toks_nodot].
+    intros n v F. destruct (beq tag n); [|discriminate]. congruence.
+Qed.
+
+Lemma id_roundtrip_refuted_pf : exists tag p id,
+  is_valid_part id = true /\ nodupb (tag_names p) = true /\ existsb (beq tag) (tag_names p) = true /\
+  rid_to_id tag p (id_to_rid tag p id) <> Some id.
+Proof.
+  exists [], [gt; dot; dollar], [97].
+  split; [vm_compute; reflexivity|]. split; [vm_compute; reflexivity|]. split; [vm_compute; reflexivity|].
+  vm_compute. discriminate.
+Qed.
+
+(* ---- the scanner before the fix ---- *)
+Lemma matches_v0_refuted_pf : exists p s,
+  is_valid p = true /\ no_gt_start s = true /\ matches_v0 p s <> isSome (values p s).
+Proof.
+  exists [97; 36; 98], [97; 120; 121; 122].
+  split; [vm_compute; reflexivity|]. split; [vm_compute; reflexivity|].
+  vm_compute. discriminate.
+Qed.
